@@ -54,6 +54,10 @@ type caseIn struct {
 	Deliver []int            `json:"deliver,omitempty"` // indices into the sent datagrams (sequential cases), order of delivery
 	DSeed   uint64           `json:"dseed,omitempty"`   // concurrent cases: seed of the delivery permutation
 	Lose    int              `json:"lose,omitempty"`    // concurrent cases: number of datagrams dropped
+	// timed cases (timed.go)
+	ExpiryMs int      `json:"expiry_ms,omitempty"` // Config.ReadBufferExpiry in ms; 0 = left unset (default)
+	Msgs     [][]byte `json:"msgs,omitempty"`      // messages written one after the other with WriteUnreliable
+	Sched    [][2]int `json:"sched,omitempty"`     // (ms after the first delivery, index of the sent datagram), in delivery order
 }
 
 // watchdog bounds every call into the library. It starts generous (loaded machine) and shrinks once
@@ -406,6 +410,9 @@ func runCase(ci *caseIn) (string, map[string]interface{}, string) {
 		}()
 		if ci.Kind == "stream" {
 			term, obs, direct = runStream(ci)
+		} else if ci.Kind == "timed" {
+			res := runTimedBatch([]*caseIn{ci})[0]
+			term, obs, direct = res.term, res.obs, res.direct
 		} else {
 			term, obs, direct = runDgram(ci)
 		}
@@ -588,14 +595,23 @@ func main() {
 	flag.Parse()
 	w := coqfmt.NewWriter(*out, "C13", "From Iscp Require Import Model.Segment Model.Framing.", "qf_case", "qf_judge", 30)
 	empty := "QStream false [] [] [] true [] 0 0"
+	var pre *timedRes // a result computed beforehand (timed batch)
 	add := func(ci *caseIn, kind string, nt bool) {
-		term, obs, direct := runCase(ci)
+		var term, direct string
+		var obs map[string]interface{}
+		if pre != nil {
+			term, obs, direct = pre.term, pre.obs, pre.direct
+		} else {
+			term, obs, direct = runCase(ci)
+		}
 		c := coqfmt.Case{Term: term, Input: ci, Observed: obs, Nontrivial: nt, Kind: kind, Direct: direct}
 		if direct != "" {
 			c.Term = empty
 		}
 		w.Add(c)
-		if ci.Kind == "dgram" {
+		if ci.Kind == "timed" {
+			w.Count(fmt.Sprintf("timed-expiry-ms:%d", ci.ExpiryMs))
+		} else if ci.Kind == "dgram" {
 			w.Count(fmt.Sprintf("dgram-P:%d", ci.P))
 			hs := map[int]bool{}
 			for _, o := range ci.Ops {
@@ -652,7 +668,32 @@ func main() {
 		ci, kind, nt := genDgram(cr)
 		add(ci, kind, nt)
 	}
-	rule := "caller discipline in every case: buffers passed to Write/WriteUnreliable are overwritten when the call has returned, returned messages are compared at once and then overwritten over their capacity (even conn seed) or retained and compared again at the end (odd conn seed); stream: 1-4 writer goroutines x 1-7 messages (sizes 0, 1-4, 255-257, random <=300, rarely <=5000 - quick tier: random <=90, 255-257 in 1/24 of the messages, rarely <=1500; payloads that look like length prefixes), fake send stream that yields between Write calls, receive stream handing out 1/3/5/64-byte or unlimited chunks, compression negotiated in ~1/5 of the cases; dgram: 2-7 messages over Transport.WriteUnreliable and 0-3 AsUnreliable() handles, payload size 1-8 (and the default 1188), sizes at multiples of P +-1, sequential or one goroutine per handle, delivery in a random permutation with loss 1/4. non-trivial = concurrent stream writers or >=3 messages; datagram: a multi-segment message and more than one handle; distinct = distinct Coq case terms"
+	// timed datagram cases (real-time arrival against the cleaner and the expiry): one concurrent batch
+	if *only != "stream" {
+		fams := []int{0, 0, 0, 0, 0, 0, 0, 0, 1, 1, 1, 1, 1, 1, 1, 1, 2, 2, 2, 2, 2, 3, 3, 3}
+		if *tier == "thorough" {
+			for i := 0; i < 4; i++ {
+				fams = append(fams, fams[:24]...)
+			}
+			fams = append(fams, 4, 4, 5, 5)
+		}
+		var cis []*caseIn
+		var kinds []string
+		for _, f := range fams {
+			ci, kind := genTimed(r.Fork(), f)
+			cis = append(cis, ci)
+			kinds = append(kinds, kind)
+		}
+		t0 := time.Now()
+		results := runTimedBatch(cis)
+		w.Count(fmt.Sprintf("timed-batch-wall-s:%d", int(time.Since(t0).Seconds()+0.5)))
+		for i := range cis {
+			pre = &results[i]
+			add(cis[i], kinds[i], true)
+		}
+		pre = nil
+	}
+	rule := "caller discipline in every case: buffers passed to Write/WriteUnreliable are overwritten when the call has returned, returned messages are compared at once and then overwritten over their capacity (even conn seed) or retained and compared again at the end (odd conn seed); stream: 1-4 writer goroutines x 1-7 messages (sizes 0, 1-4, 255-257, random <=300, rarely <=5000 - quick tier: random <=90, 255-257 in 1/24 of the messages, rarely <=1500; payloads that look like length prefixes), fake send stream that yields between Write calls, receive stream handing out 1/3/5/64-byte or unlimited chunks, compression negotiated in ~1/5 of the cases; dgram: 2-7 messages over Transport.WriteUnreliable and 0-3 AsUnreliable() handles, payload size 1-8 (and the default 1188), sizes at multiples of P +-1, sequential or one goroutine per handle, delivery in a random permutation with loss 1/4; timed (real-time arrival, payload size 4, one concurrent batch): 1-2 messages of 1-4 segments, the segments of one message spread over 1.2-2.5 s across cleaner ticks with Config.ReadBufferExpiry left unset (8 cases) or set to 2 s / 3 s with every gap >= 0.6 s below it (8), expiry 1 s with a gap of >= 2.8 s inside the message (5), expiry 1 s with a gap in the grey zone 1.1-2.4 s (3; predicate only), thorough also the unset expiry against gaps of 8.5 s and 12.5 s. non-trivial = concurrent stream writers or >=3 messages; datagram: a multi-segment message and more than one handle; distinct = distinct Coq case terms"
 	if *only != "" {
 		rule = "(-only " + *only + ") " + rule
 	}
